@@ -179,6 +179,14 @@ impl Filter {
             .map(|(id, crate_)| (CrateNode::new(crate_name.to_string(), *id, crate_.clone()),))
             .collect::<Vec<_>>();
 
+        #[cfg(crux_verif)]
+        super::verif::permute_facts(
+            crate_name,
+            &mut self.summary,
+            &mut self.item,
+            &mut self.ext_crate,
+        );
+
         self.run();
         debug!("{}", self.scc_times_summary());
 
